@@ -440,6 +440,12 @@ class ArmAssembler(BaseAssembler):
             lambda rhs: LdrPseudo(rhs[1], rhs[4].val, self.add_literal),
         )
 
+    def begin_object(self):
+        # Number the literals per object file, such that the labels do
+        # not depend on what was assembled before:
+        self.lit_pool = []
+        self.lit_counter = 0
+
     def flush(self):
         assert not self.in_macro
         while self.lit_pool:
